@@ -213,8 +213,7 @@ func (c *Ctx) ruleDistributeErrors(id string) {
 	df := c.fn(dist)
 	c.R.Fn(c.fname(df))
 	match := func(cl *core.Call) bool { return cl.Is(app, tcall) }
-	sites := core.CallsTo(df, app, tcall)
-	fs, n, err := c.errDiscipline(df, match)
+	fs, n, sites, err := c.errDisciplineDeep(df, match, 2)
 	if err != nil {
 		ru.Undecided("paths of Distribute", c.where(df, df), err.Error())
 		return
@@ -225,7 +224,8 @@ func (c *Ctx) ruleDistributeErrors(id string) {
 		bad[f.call.Instr] = f
 	}
 	for i, s := range sites {
-		key := fmt.Sprintf("error of %s call #%d in %s", s.Obj.Name(), i, c.fname(df))
+		key := fmt.Sprintf("error of %s call #%d in %s", s.Obj.Name(), i, c.fname(s.Instr.Parent()))
+		c.R.Fn(c.fname(s.Instr.Parent()))
 		if f, isBad := bad[s.Instr]; isBad {
 			if f.kind == "undecided" {
 				ru.Undecided(key, c.whereI(s.Instr), f.detail)
@@ -236,9 +236,28 @@ func (c *Ctx) ruleDistributeErrors(id string) {
 			ru.OK(key, c.whereI(s.Instr), fmt.Sprintf("tested and propagated on all %d returning paths", n))
 		}
 	}
+	// findings on calls of helpers that carry those errors upwards
+	prim := map[ssa.Instruction]bool{}
+	for _, s := range sites {
+		prim[s.Instr] = true
+	}
+	for _, f := range fs {
+		if prim[f.call.Instr] {
+			continue
+		}
+		key := fmt.Sprintf("error of helper %s called in %s", c.fname(f.call.Static), c.fname(f.call.Instr.Parent()))
+		if f.kind == "undecided" {
+			ru.Undecided(key, c.whereI(f.call.Instr), f.detail)
+		} else {
+			ru.Fail(key, c.whereI(f.call.Instr), "error "+f.kind+": "+f.detail)
+		}
+	}
 	// remote closure: returns the RPC error
-	for i, s := range core.CallsTo(df, tcall) {
-		key := fmt.Sprintf("closure given to Transport.Call #%d in %s", i, c.fname(df))
+	for i, s := range sites {
+		if !s.Is(tcall) {
+			continue
+		}
+		key := fmt.Sprintf("closure given to Transport.Call #%d in %s", i, c.fname(s.Instr.Parent()))
 		cf := closureArg(s.Arg(1))
 		if cf == nil {
 			ru.Undecided(key, c.whereI(s.Instr), "argument is not a function literal")
